@@ -57,8 +57,8 @@ func (e *exec) do(op Op, v *view) bool {
 		e.emit(hlib.App("OFree", n64(e.objOf(m))), fmt.Sprintf("free slot%d", op.O))
 	case "sub":
 		e.cl[op.C].Sub(topicName(op.T))
-		if e.subOf[op.C] < 0 {
-			e.subOf[op.C] = op.T
+		if _, closing := e.closeCh[op.C]; e.subOf[op.C] < 0 && !closing && !v.clClose[op.C] {
+			e.subOf[op.C] = op.T // (Sub on a closing / closed client does nothing)
 		}
 		e.emit(hlib.App("OSub", n64(op.C), n64(op.T)), fmt.Sprintf("sub c%d t%d", op.C, op.T))
 	case "send":
@@ -273,9 +273,7 @@ func (e *exec) do(op Op, v *view) bool {
 			e.panicked(3)
 			return true
 		case <-ch:
-			if e.subOf[op.C] >= 0 {
-				v.clClose[op.C] = true
-			}
+			v.clClose[op.C] = true
 		default:
 			ret = false
 			e.closeCh[op.C] = ch
